@@ -48,7 +48,22 @@ def check(pc, goal, timeout_ms, dump=None, second=False):
         out['status'] = 'refuted'
         out['model'] = _small_model(s, fs) or s.model()
         return out
-    # unknown: second solver on the same SMT-LIB text
+    # unknown: quantifier instantiation is order-sensitive -- retry with other seeds (an unsat answer is sound whatever the seed)
+    for seed in (7, 23):
+        s2 = z3.Solver()
+        s2.set('timeout', timeout_ms)
+        s2.set('random_seed', seed)
+        s2.set('smt.random_seed', seed) if False else None
+        s2.add(fs)
+        r = s2.check()
+        if r == z3.unsat:
+            out['status'] = 'discharged'
+            out['backend'] += f' (seed {seed})'
+            out['seconds'] = round(time.time() - t0, 4)
+            return out
+        if r == z3.sat:
+            break
+    # still unknown: second solver on the same SMT-LIB text
     r2 = _cvc5(s.to_smt2(), timeout_ms)
     out['seconds'] = round(time.time() - t0, 4)
     if r2 == 'unsat':
